@@ -108,10 +108,34 @@ contract('giscanner.sourcescanner.SourceType.child_list', params={'self': 'Sourc
          pure_keys=['self._stype'], trusted=True,
          ensures={'wrappers': 'len(result) >= 0'},
          note='generator property: one SourceSymbol wrapper per (non-NULL) child of the C type, in declaration order')
-contract(T + '_enum_common_prefix', params={'self': 'Transformer', 'symbol': 'SourceSymbol'}, returns='str?',
-         pure_keys=['self', 'symbol'], trusted=True,
-         note='longest common word prefix (split at underscores) of the enumerator identifiers; None when there are fewer '
-              'than two enumerators or no common word; not under contract (nested function, zip over split words)')
+def common_word_prefix(a, b):
+    """longest common prefix of a and b made of whole underscore-separated words, with a trailing underscore (the nested
+    helper common_prefix of _enum_common_prefix; its word loop - zip over two split lists - is not under contract)"""
+
+
+contract('contracts.py.c13_constants.common_word_prefix', params={'a': 'str', 'b': 'str'}, returns='str', pure_keys=['a', 'b'],
+         trusted=True)
+contract(T + '_enum_common_prefix.<locals>.common_prefix', params={'a': 'str', 'b': 'str'}, returns='str', trusted=True,
+         pure_keys=['a', 'b'], ensures={'is_the_common_word_prefix': 'result == common_word_prefix(a, b)'})
+PFX_FOLDS = {
+    # the common word prefix of the first k enumerators (all of them, private ones included)
+    'CP': {'type': 'str?', 'init': 'None',
+           'step': '(%s[I1].ident if ACC is None else common_word_prefix(ACC, %s[I1].ident))' % ('symbol.base_type.child_list',
+                                                                                                 'symbol.base_type.child_list')},
+}
+contract(T + '_enum_common_prefix', params={'self': 'Transformer', 'symbol': 'SourceSymbol'}, returns='str?', props=('C13',),
+         pure_keys=['self', 'symbol'],
+         requires=['symbol.base_type is not None'],
+         loops={1: {'index': 'I1', 'folds': PFX_FOLDS, 'modifies': [], 'var_types': {'child': 'SourceSymbol', 'prefix': 'str?'},
+                    'assume': ['implies(I1 < len(symbol.base_type.child_list), symbol.base_type.child_list[I1].ident is not None)'],
+                    'invariant': ["prefix == FOLD('CP', I1)", "implies(I1 >= 1, prefix is not None)"]}},
+         ensures={
+             'C13.prefix.single_enumerator_has_no_common_prefix': 'implies(len(symbol.base_type.child_list) < 2, result is None)',
+             'C13.prefix.is_the_common_word_prefix_of_all_enumerators':
+                 "implies(result is not None, result == FOLD('CP', len(symbol.base_type.child_list)))",
+         },
+         note='the prefix is folded over ALL enumerators in declaration order (private ones included); None when an empty '
+              'prefix is reached')
 contract(T + 'strip_identifier', params={'self': 'Transformer', 'ident': 'str'}, returns='str',
          pure_keys=['self', 'ident'], trusted=True, raises={'TransformerException': 'maybe', 'ValueError': 'maybe'},
          note='identifier-prefix stripping: see C04 (_split_c_string_for_namespace_matches is the verified core)')
